@@ -27,6 +27,6 @@ theorem N3_SPATIAL_MODULI__DS_DEGL (hc : c * c = 2) (h2 : (2:K) ≠ 0)
       = upper (lamS (M3.ofTens [g 0, g 1, g 2, g 3, g 4, g 5, g 6, g 7, g 8]) (M3.ofMandel c [s 0, s 1, s 2, s 3, s 4, s 5]) L (M3.ofMandel c (act (rowsOf D i6 i6) (M3.mandel3 c (dE (M3.ofTens [g 0, g 1, g 2, g 3, g 4, g 5, g 6, g 7, g 8]) L))))) := by
   have hc0 : c ≠ 0 := c_ne_zero hc h2
   obtain ⟨l00,l01,l02,l10,l11,l12,l20,l21,l22⟩ := L
-  c23_rat0 hc
+  c23_rat0c hc
 
 end TfelVerif.C23.PropsN3_SPATIAL_MODULI__DS_DEGL
